@@ -64,8 +64,9 @@ CtxAfterOK(af, l, e) ==                      \* e: 0-based index of the first el
 
 Splice(l, i, h) ==
   LET r == Len(h.remove) IN
-  IF i = -1 THEN
-       IF r > 0 THEN Err ELSE Arr(l \o h.add)
+  IF i = -1 THEN      \* append: nothing can be removed, and context other than the boundary marker cannot be checked
+       IF r > 0 \/ (\E j \in DOMAIN h.before : ~IsVoid(h.before[j])) \/ (\E j \in DOMAIN h.after : ~IsVoid(h.after[j]))
+       THEN Err ELSE Arr(l \o h.add)
   ELSE IF i < 0 \/ i + r > Len(l) THEN Err
   ELSE IF SubSeq(l, i + 1, i + r) # h.remove THEN Err
   ELSE IF ~CtxBeforeOK(h.before, l, i) THEN Err
